@@ -4,17 +4,18 @@ from . import common as C
 
 MANIFEST = dict(
    technique="Lean 4 proofs over tables regenerated from every non-test file of the library by a go/ast translator on each run: (a) lock-sets of all package-level variables, mutex-guarded fields, atomics, Once-written fields and values written after they were published into shared state (Gozod/Gen/LockSets.lean), proved race-free by evaluation of the whole table; (b) the lock-order table (per locking function: acquire/release events, calls that may lock, callbacks; Gozod/Gen/LockOrder.lean) with a general deadlock-freedom theorem for disciplined threads and the discipline proved over the whole table; (c) an interleaving model of the registry and configuration protocols with a linearizability theorem and a verified linearization search that the driver runs on histories recorded from the real code (cross-checked with porcupine); (d) the C08/C12/C15 frame theorems: every schema operation writes only locations it allocated. Failing-schedule search: the harness built with -race, goroutines x operation classes on shared schemas, first-use scenarios behind a start barrier, results cross-checked with run-alone results",
-   text="c14_racefree: any two accesses in the regenerated table to one location are both reads, both atomic, ordered by one sync.Once, or inside critical sections of one mutex (writers in W mode). no_deadlock / progress: threads that acquire locks only in increasing rank and end holding nothing never reach a state where some thread is unfinished and none can move; lockorder_disciplined, lockorder_no_nesting, cb_under_lock_sites, table_no_deadlock: every locking function of the library keeps that discipline, no lock is taken while another is held, and Registry.Range is the only place where user code runs under a library lock. atomic_linearizable: calls that take effect in one atomic step between invocation and response (registry calls, Config, SetConfig(nil)) produce only linearizable histories; run_alone_key: calls about one schema return what they return in the run containing only them; reads_run_alone; search_sound/search_complete: the search run on recorded histories decides linearizability. c14_schema_ops_read_only: chaining calls, ToJSONSchema and default-resolving Parse leave every pre-existing store location untouched. Witnesses (open known findings, each confirmed on the real code): locales_unsynchronised, lazy_cache_unsynchronised (data races), setconfig_lost_update (SetConfig is Load then Store: overlapping calls lose updates, history not linearizable), range_reenter_undisciplined / range_reenter_stuck (a Range callback that uses a chaining method deadlocks).",
+   text="c14_racefree: any two accesses in the regenerated table to one location are both reads, both atomic, ordered by one sync.Once, or inside critical sections of one mutex (writers in W mode). no_deadlock / progress: threads that acquire locks only in increasing rank and end holding nothing never reach a state where some thread is unfinished and none can move; lockorder_disciplined, lockorder_disciplined_any_callback, lockorder_no_nesting, cb_under_lock_sites, table_no_deadlock: every locking function of the library keeps that discipline whatever its callbacks do, no lock is taken while another is held, and no user code runs under a library lock. atomic_linearizable: calls that take effect in one atomic step between invocation and response (registry calls, Config, SetConfig(nil)) produce only linearizable histories; run_alone_key: calls about one schema return what they return in the run containing only them; reads_run_alone; search_sound/search_complete: the search run on recorded histories decides linearizability. c14_schema_ops_read_only: chaining calls, ToJSONSchema and default-resolving Parse leave every pre-existing store location untouched. Witness (open known finding, confirmed on the real code): lazy_cache_unsynchronised (data race). Witnesses about the code before the round-4 fixes (legacy definitions): locales_unsynchronised (now locales_synchronised over the regenerated table), setconfig_lost_update (SetConfig as Load then Store loses updates; the repaired CompareAndSwap version: cas_success_is_atomic / cas_failure_no_effect), range_reenter_undisciplined / range_reenter_stuck (a Range callback under the read lock that uses a chaining method deadlocks).",
    note="PARTIAL. The Go memory model, the sync primitives and the scheduler are not modelled (locks in the deadlock model are exclusive and non-re-entrant); the translator is a syntactic approximation (locks held = Lock/RLock seen earlier in the same function and not yet released; calls and fields resolved by name; mutation through methods of package-level values of foreign types only listed). 'Every result equals the run-alone result' is proved for the registry/configuration model and otherwise checked by the runs: -race scenarios (hand-written, one per shared location with callable accessors, one per conflict of the regenerated table, first-use scenarios over fresh struct types / JSON-Schema documents / 249 generated constructor calls compared with a cold run-alone process) and recorded histories, which observe only the schedules that happen. Trusted: Lean kernel, axioms propext/Classical.choice/Quot.sound, go/ast translator, Go race detector, porcupine (support).",
    design="DESIGN.md §5 C14", category="proof")
 
 MODULES = ["Gozod.Proofs.C14", "Gozod.Proofs.C14Order", "Gozod.Proofs.C14Lin"]
 THEOREMS = [
     "Gozod.C14.c14_racefree", "Gozod.C14.c14_racefree_table", "Gozod.C14.c14_schema_ops_read_only", "Gozod.C14.conflicts_complete",
-    "Gozod.C14.locales_unsynchronised", "Gozod.C14.lazy_cache_unsynchronised",
+    "Gozod.C14.locales_unsynchronised", "Gozod.C14.locales_synchronised", "Gozod.C14.lazy_cache_unsynchronised",
     # lock order / deadlock freedom (Proofs/C14Order.lean)
     "Gozod.C14.progress", "Gozod.C14.wr_step", "Gozod.C14.no_deadlock", "Gozod.C14.wr_append", "Gozod.C14.wr_segments",
     "Gozod.C14.disciplined_wr", "Gozod.C14.lockorder_disciplined", "Gozod.C14.lockorder_no_nesting", "Gozod.C14.cb_under_lock_sites",
+    "Gozod.C14.lockorder_disciplined_any_callback",
     "Gozod.C14.table_no_deadlock", "Gozod.C14.range_reenter_undisciplined", "Gozod.C14.range_reenter_stuck",
     # linearizability of the registry / configuration protocols (Proofs/C14Lin.lean)
     "Gozod.C14.search_sound", "Gozod.C14.search_complete", "Gozod.C14.linearizable_iff", "Gozod.C14.atomic_linearizable",
